@@ -31,13 +31,13 @@ static int spec_cmp(const struct ent *a, const struct ent *b)
         if (a->d < b->d) return -1; if (a->d > b->d) return 1;
         if (a->i > b->i) return -1; if (a->i < b->i) return 1;
         return a->key < b->key ? -1 : (a->key > b->key ? 1 : 0);
-    case K_WAIT:
+    case K_WAIT:      /* priority desc, entry time asc, then arrival number (4th payload word) asc */
         if (a->i > b->i) return -1; if (a->i < b->i) return 1;
         if (a->d < b->d) return -1; if (a->d > b->d) return 1;
-        return 0;
-    case K_HOLD:
+        return (uintptr_t)a->item[3] < (uintptr_t)b->item[3] ? -1 : ((uintptr_t)a->item[3] > (uintptr_t)b->item[3] ? 1 : 0);
+    case K_HOLD:      /* priority asc, then latest holder first (3rd payload word desc) */
         if (a->i < b->i) return -1; if (a->i > b->i) return 1;
-        return a->key > b->key ? -1 : (a->key < b->key ? 1 : 0);
+        return (uintptr_t)a->item[2] > (uintptr_t)b->item[2] ? -1 : ((uintptr_t)a->item[2] < (uintptr_t)b->item[2] ? 1 : 0);
     case K_OBJP:
         if (a->i > b->i) return -1; if (a->i < b->i) return 1;
         return a->key < b->key ? -1 : (a->key > b->key ? 1 : 0);
@@ -269,7 +269,7 @@ void vr_case(uint64_t seed, uint64_t idx, int profile)
             size_t k = vr_below(&r, mn);
             void **it = cmi_hashheap_item(hp, M[k].key);
             if (it[0] != M[k].item[0] || it[1] != M[k].item[1] || it[2] != M[k].item[2] || it[3] != M[k].item[3]) { BAD("C02/item-payload", "item(key %" PRIu64 ") shows foreign payload", M[k].key); break; }
-            if (vr_chance(&r, 1, 2)) { it[3] = (void *)(uintptr_t)vr_next(&r); M[k].item[3] = it[3]; }
+            if (vr_chance(&r, 1, 2)) { it[1] = alpha[vr_below(&r, 3)]; M[k].item[1] = it[1]; }      /* payload words that are not sort keys may be changed in place */
             break; }
         case 6: { /* is_enqueued on live / dead / never */
             VR_CNT("op_is_enqueued");
